@@ -88,12 +88,17 @@ Definition proj_enc_ticket (v : value) : option enc_ticket :=
   olet caddr <- (match ca with None => Some [] | Some x => olet l <- v_list x; map_opt p_hostaddr l end);
   Some (mkEncTicket flags kt' kv' crealm cname start endt caddr).
 
+(* cusec is an unconstrained Go int on the wire (RFC: 0..999999, never tested); APReq.Verify and the replay cache
+   add time.Duration(Cusec) * time.Microsecond to ctime, an int64 count of NANOseconds that wraps: the microseconds
+   they actually see *)
+Definition cusec_go (cu : Z) : Z := sint 64 (cu * 1000) / 1000.
+
 Definition proj_authenticator (v : value) : option authenticator :=
   olet cr <- rfld v 1; olet crealm <- v_bytes cr;
   olet cn <- rfld v 2; olet cname <- p_names cn;
   olet cu <- rfld v 4; olet cusec <- v_int cu;
   olet ct <- rfld v 5; olet ctime <- v_time ct;
-  Some (mkAuthenticator crealm cname ctime cusec).
+  Some (mkAuthenticator crealm cname ctime (cusec_go cusec)).
 
 (* the cleartext part of a decoded Ticket; field 4 (the unsealed trailer) is not read *)
 Definition proj_ticket (v : value) : option ticket :=
